@@ -77,6 +77,7 @@ type sentMsg struct {
 	writes    int  // successful WriteTo with this tag
 	mayDrop   bool // a legitimate reason to lose it exists
 	expectDst string
+	altAddrs  []string // hostile client: the fragments of this message carried these addresses
 }
 
 type fakeSock struct {
@@ -168,7 +169,20 @@ func (s *fakeSock) WriteTo(b []byte, addr string) (int, error) {
 			w.x.Violate("hook-destination", "hooked session %d: datagram for %q sent to %q, want rewritten %q", s.sid, m.addr, addr, s.dialAddr)
 		}
 	} else {
-		if addr != m.addr {
+		if len(m.altAddrs) > 0 {
+			// inconsistent fragment headers: any of the addresses the client wrote is acceptable as
+			// destination, but whichever is used must pass the policy (checked just below)
+			found := false
+			for _, a := range m.altAddrs {
+				if a == addr {
+					found = true
+				}
+			}
+			if !found {
+				w.x.Violate("wrong-destination", "session %d: datagram whose fragments were addressed %v was sent to %q", s.sid, m.altAddrs, addr)
+			}
+			w.x.Probe("mixed-address-fragments-forwarded")
+		} else if addr != m.addr {
 			w.x.Violate("wrong-destination", "session %d: datagram addressed %q was sent to %q", s.sid, m.addr, addr)
 		}
 		if !w.allowed(addr) {
@@ -365,7 +379,7 @@ func (w *world) Hook(data []byte, reqAddr *string) error {
 		w.x.Violate("hook-data", "hook was handed data that is not the first datagram's payload")
 		return nil
 	}
-	if m := w.sent[msgKey{sid, seq}]; m.addr != *reqAddr {
+	if m := w.sent[msgKey{sid, seq}]; m.addr != *reqAddr && !(len(m.altAddrs) > 1 && m.altAddrs[1] == *reqAddr) {
 		w.x.Violate("hook-data", "hook was handed address %q with the payload of a datagram addressed %q", *reqAddr, m.addr)
 	}
 	w.hookOrig = *reqAddr
@@ -516,6 +530,8 @@ func genC07(r *hysim.Rand, tier string) *hysim.Script {
 		switch p := r.Intn(100); {
 		case p < 35:
 			sc.Ops = append(sc.Ops, hysim.Op{K: "msg", A: []int64{sid, int64(r.Intn(3)), int64(r.Pick(10, 11, 64, 500, 1400, 4000))}})
+		case p < 38:
+			sc.Ops = append(sc.Ops, hysim.Op{K: "fragmix", A: []int64{sid, int64(r.Intn(3)), int64(r.Intn(3)), int64(r.Range(2, 4)), int64(r.Uint64() >> 1)}})
 		case p < 45:
 			n := int64(r.Range(2, 6))
 			sc.Ops = append(sc.Ops, hysim.Op{K: "frag", A: []int64{sid, int64(r.Intn(3)), int64(r.Pick(20, 64, 900, 3000)), n, int64(r.Uint64() >> 1), int64(r.Pick(0, 0, 1))}})
@@ -584,6 +600,10 @@ func genC08(r *hysim.Rand, tier string) *hysim.Script {
 			d = int64(r.Intn(ndst))
 		}
 		sc.Ops = append(sc.Ops, hysim.Op{K: "msg", A: []int64{sid, d, int64(r.Pick(10, 64))}})
+		if r.Chance(1, 12) {
+			// hostile client: one message whose fragments name different destinations
+			sc.Ops = append(sc.Ops, hysim.Op{K: "fragmix", A: []int64{sid, int64(r.Intn(ndst)), int64(r.Intn(ndst)), int64(r.Range(2, 4)), int64(r.Uint64() >> 1)}})
+		}
 		if r.Chance(1, 20) {
 			sc.Ops = append(sc.Ops, hysim.Op{K: "reply", A: []int64{sid, 32}})
 		}
@@ -686,6 +706,40 @@ func execC07(x *hysim.Run) {
 				}
 				w.push(&protocol.UDPMessage{SessionID: sid, PacketID: pid, FragID: uint8(i), FragCount: uint8(n), Addr: addr, Data: append([]byte(nil), p[lo:hi]...)})
 			}
+			settle()
+		case "fragmix":
+			w.seq++
+			a0, a1 := w.dstAddr(sid, op.Arg(1)), w.dstAddr(sid, op.Arg(2))
+			p := mkPayload(1, sid, w.seq, 64)
+			n := int(op.Arg(3))
+			if n < 2 {
+				n = 2
+			}
+			if n > 8 {
+				n = 8
+			}
+			pr := hysim.NewRand(uint64(op.Arg(4)), 98)
+			order := pr.Perm(n)
+			pid := uint16(w.seq%65535) + 1
+			sm := &sentMsg{sid: sid, seq: w.seq, addr: a0, size: len(p), complete: true, pushedAt: x.Now(), mayDrop: true, altAddrs: []string{a0, a1}}
+			w.sent[msgKey{sid, w.seq}] = sm
+			x.Ev("push fragmix s%d q%d frag0->%s others->%s n=%d order=%v", sid, w.seq, a0, a1, n, order)
+			per := (len(p) + n - 1) / n
+			for _, i := range order {
+				lo, hi := i*per, (i+1)*per
+				if hi > len(p) {
+					hi = len(p)
+				}
+				if lo > hi {
+					lo = hi
+				}
+				addr := a1
+				if i == 0 {
+					addr = a0
+				}
+				w.push(&protocol.UDPMessage{SessionID: sid, PacketID: pid, FragID: uint8(i), FragCount: uint8(n), Addr: addr, Data: append([]byte(nil), p[lo:hi]...)})
+			}
+			x.Probe("mixed-address-fragments-sent")
 			settle()
 		case "reply":
 			s := w.openSock(sid)
@@ -842,8 +896,8 @@ func (w *world) checkDelivery(clean bool, c08 bool) {
 		if m.writes == 1 {
 			x.Probe("forwarded")
 		}
-		if !clean {
-			continue
+		if !clean || len(m.altAddrs) > 0 {
+			continue // (mixed-address messages: which header wins is unspecified; only the policy oracle applies)
 		}
 		ok := w.hook || w.allowed(m.addr)
 		if m.writes == 0 && ok {
@@ -856,7 +910,7 @@ func (w *world) checkDelivery(clean bool, c08 bool) {
 			x.Violate("datagram-lost", "clean run: message s%d q%d to %q (allowed) was never forwarded", m.sid, m.seq, m.addr)
 			return
 		}
-		if m.writes > 0 && !ok {
+		if m.writes > 0 && !ok && len(m.altAddrs) == 0 {
 			x.Violate("policy-bypass", "message s%d q%d to rejected destination %q was forwarded", m.sid, m.seq, m.addr)
 		}
 	}
